@@ -58,7 +58,10 @@ def sigs_of(args, r):
                 site = f[5]
                 if site:
                     steps.add(ids.get((site[0], site[1]), '%s:?' % site[0]))
-        s.add(r['sig'] + ('@steps:' + ','.join(sorted(steps)) if steps else ''))
+        suffix = ('@steps:' + ','.join(sorted(steps)) if steps else '')
+        s.add(r['sig'] + suffix)
+        for ks in r.get('kind_sigs') or []:
+            s.add(ks + suffix)          # every kind of problem in the library, not only the first one
     return s
 
 
